@@ -10,34 +10,38 @@ Open Scope Z_scope.
 (* ------------------------------------------------------------------ *)
 (** * close1 / close_hop *)
 
-Lemma close1_c c k h : h_c (close1 c k h) = h_c h.
-Proof. unfold close1. destruct (_ && _ && _); reflexivity. Qed.
-Lemma close1_o c k h : h_o (close1 c k h) = h_o h.
-Proof. unfold close1. destruct (_ && _ && _); reflexivity. Qed.
-Lemma close1_b c k h : h_b (close1 c k h) = h_b h.
-Proof. unfold close1. destruct (_ && _ && _); reflexivity. Qed.
+Lemma close1_c d c k h : h_c (close1 d c k h) = h_c h.
+Proof. unfold close1. destruct (_ && _ && _ && _); reflexivity. Qed.
+Lemma close1_o d c k h : h_o (close1 d c k h) = h_o h.
+Proof. unfold close1. destruct (_ && _ && _ && _); reflexivity. Qed.
+Lemma close1_b d c k h : h_b (close1 d c k h) = h_b h.
+Proof. unfold close1. destruct (_ && _ && _ && _); reflexivity. Qed.
 
-Lemma close1_d c k h :
-  h_d (close1 c k h) = h_d h \/
-  (h_d h = None /\ h_d (close1 c k h) = Some k /\ h_c h = c /\ is_close (h_o h) = false).
+Lemma close1_d d c k h :
+  h_d (close1 d c k h) = h_d h \/
+  (h_d h = None /\ h_d (close1 d c k h) = Some k /\ h_c h = c /\ is_close (h_o h) = false /\ is_disc (h_o h) = d).
 Proof.
   unfold close1. destruct (Nat.eqb (h_c h) c) eqn:E1; [|now left].
   destruct (h_d h) eqn:E2; [now left|]. destruct (is_close (h_o h)) eqn:E3; [now left|].
-  right. apply Nat.eqb_eq in E1. cbn. auto.
+  destruct (Bool.eqb (is_disc (h_o h)) d) eqn:E4; [|now left].
+  right. apply Nat.eqb_eq in E1. apply Bool.eqb_prop in E4. cbn. auto.
 Qed.
 
-Lemma close1_other c k h : h_c h <> c -> close1 c k h = h.
+Lemma close1_other d c k h : h_c h <> c -> close1 d c k h = h.
 Proof. intro N. unfold close1. apply Nat.eqb_neq in N. now rewrite N. Qed.
 
-Lemma close1_some c k h d : h_d h = Some d -> close1 c k h = h.
+Lemma close1_some d c k h dd : h_d h = Some dd -> close1 d c k h = h.
 Proof. intro E. unfold close1. rewrite E. cbn. now rewrite andb_false_r. Qed.
 
-Lemma close1_open c k h :
-  h_c h = c -> h_d h = None -> is_close (h_o h) = false -> h_d (close1 c k h) = Some k.
-Proof. intros E1 E2 E3. unfold close1. rewrite E1, E2, E3, Nat.eqb_refl. reflexivity. Qed.
+Lemma close1_open d c k h :
+  h_c h = c -> h_d h = None -> is_close (h_o h) = false -> is_disc (h_o h) = d -> h_d (close1 d c k h) = Some k.
+Proof. intros E1 E2 E3 E4. unfold close1. rewrite E1, E2, E3, E4, Nat.eqb_refl, Bool.eqb_reflx. reflexivity. Qed.
 
-Lemma close1_isclose c k h : is_close (h_o h) = true -> close1 c k h = h.
+Lemma close1_isclose d c k h : is_close (h_o h) = true -> close1 d c k h = h.
 Proof. intro E. unfold close1. rewrite E. cbn. now rewrite andb_false_r. Qed.
+
+Lemma close1_kind d c k h : is_disc (h_o h) = negb d -> close1 d c k h = h.
+Proof. intro E. unfold close1. rewrite E. destruct d; cbn; now rewrite andb_false_r. Qed.
 
 (** two hops are the same operation (possibly seen at different times) *)
 Definition same_op (h h' : hop) : Prop := h_c h' = h_c h /\ h_o h' = h_o h /\ h_b h' = h_b h.
@@ -45,7 +49,7 @@ Definition same_op (h h' : hop) : Prop := h_c h' = h_c h /\ h_o h' = h_o h /\ h_
 Lemma same_op_refl h : same_op h h.
 Proof. repeat split. Qed.
 
-Lemma same_op_close1 c k h : same_op h (close1 c k h).
+Lemma same_op_close1 d c k h : same_op h (close1 d c k h).
 Proof. unfold same_op. now rewrite close1_c, close1_o, close1_b. Qed.
 
 Lemma same_op_trans a b c : same_op a b -> same_op b c -> same_op a c.
@@ -57,7 +61,7 @@ Proof. unfold same_op. intros (A1 & A2 & A3) (B1 & B2 & B3). repeat split; congr
 Inductive hchange (now : Z) (H H' : list hop) : Prop :=
 | HC_same : H' = H -> hchange now H H'
 | HC_open c o : H' = H ++ [mkHop c o now None] -> hchange now H H'
-| HC_close c : H' = close_hop c now H -> hchange now H H'.
+| HC_close d c : H' = close_hop d c now H -> hchange now H H'.
 
 (** the end stamp of an operation is set once, to the current time *)
 Definition d_evolves (now : Z) (h h' : hop) : Prop :=
@@ -66,11 +70,11 @@ Definition d_evolves (now : Z) (h h' : hop) : Prop :=
 Lemma hchange_fwd now H H' h :
   hchange now H H' -> In h H -> exists h', In h' H' /\ same_op h h' /\ d_evolves now h h'.
 Proof.
-  intros [->| c o ->| c ->] Hin.
+  intros [->| c o ->| d c ->] Hin.
   - exists h. repeat split; auto. now left.
   - exists h. split; [apply in_or_app; now left|]. split; [apply same_op_refl | now left].
-  - exists (close1 c now h). split; [now apply in_map|]. split; [apply same_op_close1|].
-    destruct (close1_d c now h) as [E|(E1 & E2 & _ & E4)]; [now left | right; auto].
+  - exists (close1 d c now h). split; [now apply in_map|]. split; [apply same_op_close1|].
+    destruct (close1_d d c now h) as [E|(E1 & E2 & _ & E4 & _)]; [now left | right; auto].
 Qed.
 
 Lemma hchange_bwd now H H' h' :
@@ -78,13 +82,13 @@ Lemma hchange_bwd now H H' h' :
   (exists h, In h H /\ same_op h h' /\ d_evolves now h h') \/
   (exists c o, h' = mkHop c o now None /\ H' = H ++ [h']).
 Proof.
-  intros [->| c o ->| c ->] Hin.
+  intros [->| c o ->| d c ->] Hin.
   - left. exists h'. repeat split; auto. now left.
   - apply in_app_iff in Hin as [Hin|[<-|[]]].
     + left. exists h'. repeat split; auto. now left.
     + right. eauto.
   - apply in_map_iff in Hin as [h [<- Hin]]. left. exists h. split; [assumption|]. split; [apply same_op_close1|].
-    destruct (close1_d c now h) as [E|(E1 & E2 & _ & E4)]; [now left | right; auto].
+    destruct (close1_d d c now h) as [E|(E1 & E2 & _ & E4 & _)]; [now left | right; auto].
 Qed.
 
 (* ------------------------------------------------------------------ *)
@@ -104,7 +108,7 @@ Proof.
   intro Hfg. induction l as [|a l IH]; cbn; [reflexivity|]. rewrite Hfg. destruct (f a); cbn; now rewrite IH.
 Qed.
 
-Lemma pubs_of_close p c k H : pubs_of p (close_hop c k H) = List.map (close1 c k) (pubs_of p H).
+Lemma pubs_of_close p d c k H : pubs_of p (close_hop d c k H) = List.map (close1 d c k) (pubs_of p H).
 Proof. apply filter_map_commute. intro a. now rewrite close1_c, close1_o. Qed.
 
 Lemma pubs_of_app p H1 H2 : pubs_of p (H1 ++ H2) = pubs_of p H1 ++ pubs_of p H2.
@@ -119,13 +123,13 @@ Qed.
 Lemma pub_nth_hchange now H H' p n P :
   hchange now H H' -> pub_nth H p n P -> exists P', pub_nth H' p n P' /\ same_op P P' /\ d_evolves now P P'.
 Proof.
-  intros [->| c o ->| c ->] E; unfold pub_nth in *.
+  intros [->| c o ->| d c ->] E; unfold pub_nth in *.
   - exists P. repeat split; auto. now left.
   - exists P. split; [|split; [apply same_op_refl | now left]].
     rewrite pubs_of_app, nth_error_app1; [assumption|]. apply nth_error_Some. congruence.
-  - exists (close1 c now P). split; [|split; [apply same_op_close1|]].
+  - exists (close1 d c now P). split; [|split; [apply same_op_close1|]].
     + rewrite pubs_of_close. now apply map_nth_error.
-    + destruct (close1_d c now P) as [E1|(E1 & E2 & _ & E4)]; [now left | right; auto].
+    + destruct (close1_d d c now P) as [E1|(E1 & E2 & _ & E4 & _)]; [now left | right; auto].
 Qed.
 
 Lemma pub_nth_hchange_bwd now H H' p n P' :
@@ -133,7 +137,7 @@ Lemma pub_nth_hchange_bwd now H H' p n P' :
   (exists P, pub_nth H p n P /\ same_op P P' /\ d_evolves now P P') \/
   (n = length (pubs_of p H) /\ exists e, P' = mkHop p (OEvent e) now None /\ H' = H ++ [P']).
 Proof.
-  intros [->| c o ->| c ->] E; unfold pub_nth in *.
+  intros [->| c o ->| d c ->] E; unfold pub_nth in *.
   - left. exists P'. repeat split; auto. now left.
   - rewrite pubs_of_app in E. destruct (Nat.lt_ge_cases n (length (pubs_of p H))) as [L|G].
     + rewrite nth_error_app1 in E by assumption. left. exists P'. split; [assumption|]. split; [apply same_op_refl | now left].
@@ -147,7 +151,7 @@ Proof.
       cbn in E. inversion E; subst P'. split; [lia|]. eauto.
   - rewrite pubs_of_close, nth_error_map in E.
     destruct (nth_error (pubs_of p H) n) as [P|] eqn:E1; [|discriminate]. cbn in E. inversion E as [E2]. left. exists P. split; [reflexivity|]. split; [apply same_op_close1|].
-    destruct (close1_d c now P) as [E9|(E3 & E4 & _ & E5)]; [now left | right; auto].
+    destruct (close1_d d c now P) as [E9|(E3 & E4 & _ & E5 & _)]; [now left | right; auto].
 Qed.
 
 (* ------------------------------------------------------------------ *)
@@ -170,7 +174,7 @@ Proof. reflexivity. Qed.
 Lemma xops_app x H1 H2 : xops x (H1 ++ H2) = xops x H1 ++ xops x H2.
 Proof. apply filter_app. Qed.
 
-Lemma xops_close x c k H : xops x (close_hop c k H) = List.map (close1 c k) (xops x H).
+Lemma xops_close x d c k H : xops x (close_hop d c k H) = List.map (close1 d c k) (xops x H).
 Proof. apply filter_map_commute. intro a. now rewrite close1_c. Qed.
 
 Lemma xops_In x H h : In h (xops x H) <-> In h H /\ h_c h = x.
@@ -181,12 +185,12 @@ Proof.
   intro E. unfold first_end_after. rewrite fold_right_app. cbn. rewrite E. now destruct (b <? h_b h).
 Qed.
 
-Lemma fea_close l b c k d :
-  first_end_after (List.map (close1 c k) l) b = Some d -> first_end_after l b = Some d \/ d = k.
+Lemma fea_close l b dd c k d :
+  first_end_after (List.map (close1 dd c k) l) b = Some d -> first_end_after l b = Some d \/ d = k.
 Proof.
   induction l as [|a l IH]; cbn; [discriminate|]. rewrite close1_b.
   destruct (b <? h_b a); [|exact IH].
-  destruct (close1_d c k a) as [E|(E1 & E2 & _)].
+  destruct (close1_d dd c k a) as [E|(E1 & E2 & _)].
   - rewrite E. destruct (h_d a); [auto | exact IH].
   - rewrite E2, E1. intro X. inversion X. now right.
 Qed.
@@ -219,7 +223,7 @@ Proof.
   intros HC (E1 & E2 & E3) Ev. rewrite !effk_unfold, E1, E2, E3.
   destruct (h_o k) eqn:Eo;
     try (destruct Ev as [Ev|(Ev1 & Ev2 & _)]; [rewrite Ev; auto | rewrite Ev2; intro X; inversion X; auto]).
-  destruct HC as [->| c o ->| c ->].
+  destruct HC as [->| c o ->| dd c ->].
   - auto.
   - rewrite xops_app. unfold xops at 2. cbn [filter h_c].
     destruct (Nat.eqb c (h_c k)); [|rewrite app_nil_r; auto].
@@ -245,13 +249,16 @@ Ltac upd_x x :=
 Lemma trans_actor s l s' :
   trans s l s' ->
   match l with
-  | LOp c _ => c_pc (r_cs s c) = [] /\ c_dead (r_cs s c) = false
-  | LRun c | LVisit c _ _ => c_pc (r_cs s c) <> []
+  | LOp c o => c_dead (r_cs s c) = false /\ ~ In c (r_cancel s) /\ (c_pc (r_cs s c) = [] \/ (o = ODisc /\ c_pc (r_cs s c) <> []))
+  | LRun c => c_pc (r_cs s c) <> [] \/ In c (r_cancel s)
+  | LVisit c _ _ => c_pc (r_cs s c) <> []
+  | LSkip c => c_pc (r_cs s c) <> [] /\ In c (r_cancel s)
   | _ => True
   end.
 Proof.
-  intro T. inversion T; subst; cbn; try (split; assumption); try congruence; try exact Logic.I.
-  destruct H1 as [->|[-> _]]; congruence.
+  intro T. inversion T; subst; cbn; auto; try (left; congruence); try exact Logic.I.
+  - destruct H1 as [->|[-> _]]; [congruence | left; congruence].
+  - split; [congruence | assumption].
 Qed.
 
 Lemma od_upd_pc f c pc x :
@@ -259,16 +266,19 @@ Lemma od_upd_pc f c pc x :
 Proof. destruct (upd_cases f c (set_pc (f c) pc) x) as [[-> ->]|[_ ->]]; split; reflexivity. Qed.
 
 (** accepted operations and the session's liveness change only when an
-    operation is accepted *)
+    operation is accepted by an idle recv loop, or when a cancelled session's
+    loop returns (which is the disconnect of an idle connection) *)
 Lemma trans_ops s l s' x :
   trans s l s' ->
   (c_ops (r_cs s' x) = c_ops (r_cs s x) /\ c_dead (r_cs s' x) = c_dead (r_cs s x)) \/
-  (exists o, l = LOp x o /\ c_ops (r_cs s' x) = c_ops (r_cs s x) ++ [o] /\ c_dead (r_cs s' x) = is_disc o /\
+  (exists o, (l = LOp x o \/ (l = LRun x /\ o = ODisc /\ In x (r_cancel s))) /\
+             c_pc (r_cs s x) = [] /\
+             c_ops (r_cs s' x) = c_ops (r_cs s x) ++ [o] /\ c_dead (r_cs s' x) = is_disc o /\
              c_pc (r_cs s' x) = program s x o).
 Proof.
   intro T. inversion T; subst; cbn [r_cs with_cs].
   - destruct (Nat.eq_dec x c) as [->|N].
-    + right. exists o. rewrite upd_same. cbn. auto.
+    + right. exists o. rewrite upd_same. cbn. auto 6.
     + left. rewrite upd_other by auto. auto.
   - left. apply od_upd_pc.
   - left. apply od_upd_pc.
@@ -290,6 +300,23 @@ Proof.
   - left. upd_x x; split; reflexivity.
   - left. upd_x x; split; reflexivity.
   - left. upd_x x; split; reflexivity.
+  - left. auto.
+  - left. apply od_upd_pc.
+  - destruct (Nat.eq_dec x c) as [->|N].
+    + right. exists ODisc. rewrite upd_same. cbn. auto 8.
+    + left. rewrite upd_other by auto. auto.
+Qed.
+
+(** the list of cancelled sessions *)
+Lemma trans_cancel s l s' :
+  trans s l s' ->
+  r_cancel s' = r_cancel s \/
+  (exists c, l = LOp c ODisc /\ c_pc (r_cs s c) <> [] /\ r_cancel s' = c :: r_cancel s /\ r_cs s' = r_cs s /\ r_reg s' = r_reg s) \/
+  (exists c, l = LRun c /\ c_pc (r_cs s c) = [] /\ In c (r_cancel s) /\ r_cancel s' = remove_conn c (r_cancel s)).
+Proof.
+  intro T. inversion T; subst; cbn [r_cancel with_cs start_visit]; auto.
+  - right; left. exists c. auto.
+  - right; right. exists c. auto.
 Qed.
 
 (** the output of a connection grows by at most one message per step: a
@@ -336,11 +363,21 @@ Proof. destruct l; cbn; split; congruence. Qed.
 Lemma is_nil_false {A} (l : list A) : is_nil l = false <-> l <> [].
 Proof. destruct l; cbn; split; congruence. Qed.
 
-Lemma accepted_step s c o :
-  accepted s c = true -> c_ops (r_cs (step s (LOp c o)) c) = c_ops (r_cs s c) ++ [o].
+Lemma accepted_true s c :
+  accepted s c = true <-> c_pc (r_cs s c) = [] /\ c_dead (r_cs s c) = false /\ ~ In c (r_cancel s).
 Proof.
-  unfold accepted. intro A. apply andb_true_iff in A as [A1 A2]. apply is_nil_true in A1. apply negb_true_iff in A2.
-  unfold step. cbn [enabled step_enabled]. rewrite A1, A2. cbn [r_cs with_cs]. rewrite upd_same. reflexivity.
+  unfold accepted. rewrite !andb_true_iff, is_nil_true, !negb_true_iff, mem_conn_false. tauto.
+Qed.
+
+(** a label that is taken changes the state *)
+Lemma op_taken_step s c o : op_taken s c o = true -> step s (LOp c o) <> s.
+Proof.
+  unfold op_taken. intro A. apply andb_true_iff in A as [A A3]. apply andb_true_iff in A as [A1 A2].
+  apply negb_true_iff in A1, A2. unfold step. cbn [enabled step_enabled]. rewrite A1, A2. cbn [orb negb andb].
+  destruct (c_pc (r_cs s c)) eqn:Hpc.
+  - intro E. apply (f_equal (fun s0 => length (c_ops (r_cs s0 c)))) in E. cbn [r_cs with_cs] in E.
+    rewrite upd_same in E. cbn in E. rewrite app_length in E. cbn in E. lia.
+  - cbn in A3. rewrite A3. cbn. intro E. apply (f_equal (fun s0 => length (r_cancel s0))) in E. cbn in E. lia.
 Qed.
 
 Lemma istep_outs st l x :
@@ -357,10 +394,9 @@ Lemma istep_stutter st l :
   i_hops (istep st l) = i_hops st /\ (forall x, i_outs (istep st l) x = i_outs st x).
 Proof.
   intro E. split.
-  - unfold istep. cbn [i_hops]. rewrite E. destruct l as [c o|c|c c' ord|c|c]; try reflexivity.
-    + destruct (accepted (i_s st) c) eqn:A; [|reflexivity].
-      exfalso. pose proof (accepted_step (i_s st) c o A) as X. rewrite E in X.
-      apply (f_equal (@length op)) in X. rewrite app_length in X. cbn in X. lia.
+  - unfold istep. cbn [i_hops]. rewrite E. destruct l as [c o|c|c c' ord|c|c|c]; try reflexivity.
+    + destruct (op_taken (i_s st) c o) eqn:A; [|reflexivity].
+      exfalso. now apply (op_taken_step _ _ _ A).
     + destruct (c_pc (r_cs (i_s st) c)); reflexivity.
   - intro x. rewrite istep_outs, E, skipn_all. cbn. apply app_nil_r.
 Qed.
@@ -370,23 +406,25 @@ Lemma istep_hops_trans st l :
   i_hops (istep st l) =
   match l with
   | LOp c o => i_hops st ++ [mkHop c o (i_now st) None]
-  | LRun c => if is_nil (c_pc (r_cs (step (i_s st) l) c)) then close_hop c (i_now st) (i_hops st) else i_hops st
+  | LRun c =>
+      if negb (is_nil (c_pc (r_cs (i_s st) c))) && is_nil (c_pc (r_cs (step (i_s st) l) c))
+      then close_hop (is_unsub_head (c_pc (r_cs (i_s st) c))) c (i_now st) (i_hops st) else i_hops st
   | _ => i_hops st
   end.
 Proof.
   intro T. pose proof (trans_actor _ _ _ T) as A. unfold istep. cbn [i_hops].
-  destruct l as [c o|c|c c' ord|c|c]; try reflexivity.
-  - destruct A as [A1 A2]. unfold accepted. now rewrite A1, A2.
-  - apply is_nil_false in A. now rewrite A.
+  destruct l as [c o|c|c c' ord|c|c|c]; try reflexivity.
+  destruct A as (A1 & A2 & A3). unfold op_taken. apply mem_conn_false in A2. rewrite A1, A2. cbn [negb andb].
+  destruct A3 as [->|[-> _]]; [reflexivity | cbn; now rewrite orb_true_r].
 Qed.
 
 Lemma istep_hchange st l : hchange (i_now st) (i_hops st) (i_hops (istep st l)).
 Proof.
   destruct (step_trans (i_s st) l) as [E|T].
   - apply HC_same. now apply istep_stutter.
-  - rewrite (istep_hops_trans st l T). destruct l as [c o|c|c c' ord|c|c]; try (now apply HC_same).
+  - rewrite (istep_hops_trans st l T). destruct l as [c o|c|c c' ord|c|c|c]; try (now apply HC_same).
     + now apply (HC_open _ _ _ c o).
-    + destruct (is_nil _); [now apply (HC_close _ _ _ c) | now apply HC_same].
+    + destruct (_ && _); [now eapply HC_close | now apply HC_same].
 Qed.
 
 Lemma istep_outs_trans st l x :
@@ -404,20 +442,30 @@ Qed.
 (* ------------------------------------------------------------------ *)
 (** * The bookkeeping invariant *)
 
+(** a session whose context was cancelled in flight: the client's disconnect
+    is an operation of the history, but the recv loop has not taken it yet *)
+Definition cancel_tail (s : rstate) (x : conn) : list op := if mem_conn x (r_cancel s) then [ODisc] else [].
+
 Record HInv (st : istate) : Prop := mkHInv {
   h_now : 0 <= i_now st;
   h_time : forall h, In h (i_hops st) ->
              0 <= h_b h < i_now st /\ (forall d, h_d h = Some d -> h_b h < d < i_now st);
   h_sorted : StronglySorted (fun a b => h_b a < h_b b) (i_hops st);
-  h_ops : forall x, List.map h_o (xops x (i_hops st)) = c_ops (r_cs (i_s st) x);
-  (* an operation without end stamp (other than a CLOSE) is the last one of its connection, which is busy *)
-  h_open : forall h, In h (i_hops st) -> h_d h = None -> is_close (h_o h) = false ->
-             c_pc (r_cs (i_s st) (h_c h)) <> [] /\
-             (forall h', In h' (i_hops st) -> h_c h' = h_c h -> h_b h' <= h_b h);
-  (* the last operation of a busy connection has no end stamp *)
-  h_busy : forall x, c_pc (r_cs (i_s st) x) <> [] ->
-             exists h, In h (i_hops st) /\ h_c h = x /\ h_d h = None /\
-                       (forall h', In h' (i_hops st) -> h_c h' = x -> h_b h' <= h_b h);
+  h_ops : forall x, List.map h_o (xops x (i_hops st)) = c_ops (r_cs (i_s st) x) ++ cancel_tail (i_s st) x;
+  (* an operation other than CLOSE / disconnect without end stamp is the last such operation of its
+     connection; the connection is busy, or its context was cancelled while the operation was in flight *)
+  h_open : forall h, In h (i_hops st) -> h_d h = None -> is_close (h_o h) = false -> is_disc (h_o h) = false ->
+             (forall h', In h' (i_hops st) -> h_c h' = h_c h -> is_disc (h_o h') = false -> h_b h' <= h_b h) /\
+             (c_pc (r_cs (i_s st) (h_c h)) <> [] \/ In (h_c h) (r_cancel (i_s st)) \/ c_dead (r_cs (i_s st) (h_c h)) = true);
+  (* a disconnect is the last operation of its connection; it ends with the end of the session *)
+  h_disc : forall k, In k (i_hops st) -> is_disc (h_o k) = true ->
+             (forall h', In h' (i_hops st) -> h_c h' = h_c k -> h_b h' <= h_b k) /\
+             (In (h_c k) (r_cancel (i_s st)) \/ c_dead (r_cs (i_s st) (h_c k)) = true) /\
+             (h_d k <> None -> c_pc (r_cs (i_s st) (h_c k)) = [] /\ c_dead (r_cs (i_s st) (h_c k)) = true);
+  (* the operation a live recv loop is working on has no end stamp *)
+  h_busy : forall x, c_pc (r_cs (i_s st) x) <> [] -> c_dead (r_cs (i_s st) x) = false ->
+             exists h, In h (i_hops st) /\ h_c h = x /\ is_disc (h_o h) = false /\ h_d h = None /\
+                       (forall h', In h' (i_hops st) -> h_c h' = x -> is_disc (h_o h') = false -> h_b h' <= h_b h);
   h_outs : forall x, List.map fst (i_outs st x) = c_out (r_cs (i_s st) x) /\
                      Forall (fun mr : smsg * Z => 0 <= snd mr < i_now st) (i_outs st x)
 }.
@@ -467,40 +515,65 @@ Qed.
 Lemma trans_pc_other s l s' x : trans s l s' -> label_of_conn x l = false -> c_pc (r_cs s' x) = c_pc (r_cs s x).
 Proof. intros T Hl. now destruct (ctl_fields _ _ (trans_ctl_other s l s' x T Hl)). Qed.
 
-(** except for the acceptance of an operation and for the last step of a
-    program, a transition keeps every connection busy or idle as it was *)
-Lemma trans_idle_iff s l s' :
-  trans s l s' -> (forall c o, l <> LOp c o) -> (forall c, l = LRun c -> c_pc (r_cs s' c) <> []) ->
-  forall x, c_pc (r_cs s' x) = [] <-> c_pc (r_cs s x) = [].
+Lemma trans_dead_other s l s' x : trans s l s' -> label_of_conn x l = false -> c_dead (r_cs s' x) = c_dead (r_cs s x).
+Proof. intros T Hl. now destruct (ctl_fields _ _ (trans_ctl_other s l s' x T Hl)) as (_ & E & _). Qed.
+
+Lemma mem_conn_remove_other x c r : x <> c -> mem_conn x (remove_conn c r) = mem_conn x r.
 Proof.
-  intros T Hno Hrun x. destruct (label_of_conn x l) eqn:Hl.
-  - pose proof (trans_actor _ _ _ T) as A.
-    destruct l as [c o|c|c c' ord|c|c]; cbn in Hl; try discriminate.
-    + exfalso. eapply Hno. reflexivity.
-    + apply Nat.eqb_eq in Hl. subst c. specialize (Hrun x eq_refl). split; intro; contradiction.
-    + apply Nat.eqb_eq in Hl. subst c. pose proof (trans_visit_pc _ _ _ _ _ T). split; intro; contradiction.
-  - now rewrite (trans_pc_other _ _ _ _ T Hl).
+  intro N. destruct (mem_conn x r) eqn:E.
+  - apply mem_conn_In. apply remove_conn_In. split; [assumption | now apply mem_conn_In].
+  - apply mem_conn_false. intro X. apply remove_conn_In in X as [_ X]. apply mem_conn_false in E. contradiction.
 Qed.
 
-Theorem HInv_step st l : HInv st -> HInv (istep st l).
+Lemma mem_conn_remove_same c r : mem_conn c (remove_conn c r) = false.
+Proof. apply mem_conn_false. intro X. apply remove_conn_In in X as [X _]. now apply X. Qed.
+
+(** the states of a connection in which an operation of it may stay without
+    end stamp, resp. in which its disconnect is under way *)
+Definition busyish (s : rstate) (x : conn) : Prop :=
+  c_pc (r_cs s x) <> [] \/ In x (r_cancel s) \/ c_dead (r_cs s x) = true.
+Definition leaving (s : rstate) (x : conn) : Prop := In x (r_cancel s) \/ c_dead (r_cs s x) = true.
+Definition gone (s : rstate) (x : conn) : Prop := c_pc (r_cs s x) = [] /\ c_dead (r_cs s x) = true.
+
+(** a step that neither opens nor closes an operation *)
+Lemma HInv_same st l :
+  HInv st ->
+  i_hops (istep st l) = i_hops st ->
+  (forall x, c_ops (r_cs (step (i_s st) l) x) ++ cancel_tail (step (i_s st) l) x = c_ops (r_cs (i_s st) x) ++ cancel_tail (i_s st) x) ->
+  (forall x, busyish (i_s st) x -> busyish (step (i_s st) l) x) ->
+  (forall x, leaving (i_s st) x -> leaving (step (i_s st) l) x) ->
+  (forall x, gone (i_s st) x -> gone (step (i_s st) l) x) ->
+  (forall x, c_pc (r_cs (step (i_s st) l) x) <> [] -> c_dead (r_cs (step (i_s st) l) x) = false ->
+             c_pc (r_cs (i_s st) x) <> [] /\ c_dead (r_cs (i_s st) x) = false) ->
+  (forall x, List.map fst (i_outs (istep st l) x) = c_out (r_cs (step (i_s st) l) x) /\
+             Forall (fun mr : smsg * Z => 0 <= snd mr < i_now st + 1) (i_outs (istep st l) x)) ->
+  HInv (istep st l).
 Proof.
-  intro I. destruct (step_trans (i_s st) l) as [E|T].
+  intros I EH Hops Hb Hl Hg Hbusy Hout. pose proof (h_now st I).
+  constructor; rewrite ?istep_now, ?istep_s, ?EH; try assumption; try lia.
+  - intros h Hin. destruct (h_time st I h Hin) as [H1 H2]. split; [lia|]. intros d Hd. specialize (H2 d Hd). lia.
+  - apply I.
+  - intro x. rewrite Hops. apply I.
+  - intros h Hin Hd Hc Hk. destruct (h_open st I h Hin Hd Hc Hk) as [H1 H2]. split; [assumption|]. now apply Hb.
+  - intros k Hin Hk. destruct (h_disc st I k Hin Hk) as (H1 & H2 & H3). split; [assumption|]. split; [now apply Hl|].
+    intro Hd. now apply Hg, H3.
+  - intros x Hx Hd. destruct (Hbusy x Hx Hd) as [A B]. now apply (h_busy st I x).
+Qed.
+
+Theorem HInv_step buf st l : reachable buf (i_s st) -> HInv st -> HInv (istep st l).
+Proof.
+  intros R I. pose proof (Inv_reachable buf _ R) as IV.
+  destruct (step_trans (i_s st) l) as [E|T].
   - (* stutter *)
     destruct (istep_stutter st l E) as [EH EO].
-    constructor; rewrite ?istep_now, ?istep_s, ?EH, ?E.
-    + pose proof (h_now st I). lia.
-    + intros h Hin. destruct (h_time st I h Hin) as [H1 H2]. split; [lia|]. intros d Hd. specialize (H2 d Hd). lia.
-    + apply I.
-    + apply I.
-    + apply I.
-    + apply I.
-    + intro x. rewrite EO. destruct (h_outs st I x) as [H1 H2]. split; [assumption|].
-      eapply Forall_impl; [|exact H2]. cbn. intros; lia.
+    apply HInv_same; rewrite ?E; auto.
+    intro x. rewrite EO. destruct (h_outs st I x) as [H1 H2]. split; [assumption|].
+    eapply Forall_impl; [|exact H2]. cbn. intros; lia.
   - (* a transition *)
     pose proof (h_now st I) as Hnow.
-    assert (Hout : forall x, List.map fst (i_outs (istep st l) x) = c_out (r_cs (i_s (istep st l)) x) /\
-                   Forall (fun mr : smsg * Z => 0 <= snd mr < i_now (istep st l)) (i_outs (istep st l) x)).
-    { intro x. rewrite istep_now, istep_s. destruct (h_outs st I x) as [H1 H2].
+    assert (Hout : forall x, List.map fst (i_outs (istep st l) x) = c_out (r_cs (step (i_s st) l) x) /\
+                   Forall (fun mr : smsg * Z => 0 <= snd mr < i_now st + 1) (i_outs (istep st l) x)).
+    { intro x. destruct (h_outs st I x) as [H1 H2].
       destruct (istep_outs_trans st l x T) as [[E1 E2]|(m & E1 & E2 & _)]; rewrite E1, E2.
       - split; [assumption|]. eapply Forall_impl; [|exact H2]. cbn. intros; lia.
       - rewrite map_app, H1. split; [reflexivity|]. apply Forall_app. split.
@@ -508,97 +581,272 @@ Proof.
         + constructor; [cbn; lia | constructor]. }
     pose proof (trans_actor _ _ _ T) as A.
     pose proof (istep_hops_trans st l T) as EH.
+    set (s := i_s st) in *. set (s' := step s l) in *.
     assert (Time_old : forall h, In h (i_hops st) ->
               0 <= h_b h < i_now st + 1 /\ (forall d, h_d h = Some d -> h_b h < d < i_now st + 1)).
     { intros h Hin. destruct (h_time st I h Hin) as [H1 H2]. split; [lia|]. intros d Hd. specialize (H2 d Hd). lia. }
-    assert (Same : i_hops (istep st l) = i_hops st ->
-                   (forall x, c_pc (r_cs (step (i_s st) l) x) = [] <-> c_pc (r_cs (i_s st) x) = []) ->
-                   (forall x, c_ops (r_cs (step (i_s st) l) x) = c_ops (r_cs (i_s st) x)) ->
-                   HInv (istep st l)).
-    { intros EH' Hidle Hops. constructor; rewrite ?istep_now, ?istep_s, ?EH'; try assumption; try lia.
-      - apply I.
-      - intro x. rewrite Hops. apply I.
-      - intros h Hin Hd Hc. destruct (h_open st I h Hin Hd Hc) as [H1 H2]. split; [|assumption].
-        intro X. apply H1. now apply Hidle.
-      - intros x Hx. apply (h_busy st I x). intro X. apply Hx. now apply Hidle. }
-    assert (Ops_noop : (forall c o, l <> LOp c o) -> forall x, c_ops (r_cs (step (i_s st) l) x) = c_ops (r_cs (i_s st) x)).
-    { intros Hno x. destruct (trans_ops _ _ _ x T) as [[E _]|(o & El & _)]; [assumption | exfalso; eapply Hno; eassumption]. }
-    destruct l as [c o|c|c c' ord|c|c].
-    + (* an operation is accepted *)
-      destruct A as [Apc Ad].
-      assert (Acc : accepted (i_s st) c = true) by (unfold accepted; now rewrite Apc, Ad).
-      assert (Pc_other : forall x, x <> c -> c_pc (r_cs (step (i_s st) (LOp c o)) x) = c_pc (r_cs (i_s st) x)).
-      { intros x N. apply (trans_pc_other _ _ _ _ T). cbn. now apply Nat.eqb_neq. }
-      assert (Pc_c : c_pc (r_cs (step (i_s st) (LOp c o)) c) = program (i_s st) c o).
-      { destruct (trans_ops _ _ _ c T) as [[E _]|(o' & El & _ & _ & Ep)].
-        - exfalso. rewrite (accepted_step _ _ o Acc) in E. apply (f_equal (@length op)) in E. rewrite app_length in E. cbn in E. lia.
-        - inversion El; subst o'. exact Ep. }
-      constructor; rewrite ?istep_now, ?istep_s, ?EH; try assumption; try lia.
+    (* what happens to a connection that is not the acting goroutine *)
+    assert (Other : forall x, label_of_conn x l = false ->
+              c_pc (r_cs s' x) = c_pc (r_cs s x) /\ c_dead (r_cs s' x) = c_dead (r_cs s x) /\
+              c_ops (r_cs s' x) = c_ops (r_cs s x) /\ (In x (r_cancel s') <-> In x (r_cancel s))).
+    { intros x Hl. destruct (ctl_fields _ _ (trans_ctl_other _ _ _ x T Hl)) as (E1 & E2 & E3 & _).
+      repeat split; auto.
+      - destruct (trans_cancel _ _ _ T) as [E|[(c & El & _ & E & _)|(c & El & _ & _ & E)]]; fold s' in E; rewrite E; auto.
+        + intros [<-|X]; [|assumption]. subst l. cbn in Hl. now rewrite Nat.eqb_refl in Hl.
+        + intro X. apply remove_conn_In in X. tauto.
+      - destruct (trans_cancel _ _ _ T) as [E|[(c & El & _ & E & _)|(c & El & _ & _ & E)]]; fold s' in E; rewrite E; auto.
+        + intro X. now right.
+        + intro X. apply remove_conn_In. split; [|assumption]. intros ->. subst l. cbn in Hl. now rewrite Nat.eqb_refl in Hl. }
+    assert (Tail_other : forall x, label_of_conn x l = false -> cancel_tail s' x = cancel_tail s x).
+    { intros x Hl. destruct (Other x Hl) as (_ & _ & _ & E). unfold cancel_tail.
+      destruct (mem_conn x (r_cancel s')) eqn:E1, (mem_conn x (r_cancel s)) eqn:E2; try reflexivity.
+      - apply mem_conn_In, E in E1. apply mem_conn_false in E2. contradiction.
+      - apply mem_conn_In, E in E2. apply mem_conn_false in E1. contradiction. }
+    destruct l as [c o|c|c c' ord|c|c|c].
+    + (* an operation is accepted, or a busy session's context is cancelled *)
+      destruct A as (Ad & Ac & Apc).
+      assert (Lo : forall x, x <> c -> label_of_conn x (LOp c o) = false) by (intros x N; cbn; now apply Nat.eqb_neq).
+      assert (Tail0 : cancel_tail s c = []) by (unfold cancel_tail; apply mem_conn_false in Ac; now rewrite Ac).
+      (* the two ways *)
+      assert (Ways : (c_pc (r_cs s c) = [] /\ c_ops (r_cs s' c) = c_ops (r_cs s c) ++ [o] /\ cancel_tail s' c = [] /\
+                      c_pc (r_cs s' c) = program s c o /\ c_dead (r_cs s' c) = is_disc o) \/
+                     (o = ODisc /\ c_pc (r_cs s c) <> [] /\ c_ops (r_cs s' c) = c_ops (r_cs s c) /\ cancel_tail s' c = [ODisc] /\
+                      In c (r_cancel s') /\ c_pc (r_cs s' c) = c_pc (r_cs s c) /\ c_dead (r_cs s' c) = c_dead (r_cs s c))).
+      { destruct (trans_cancel _ _ _ T) as [E|[(c1 & El & Hne & E & Ecs & _)|(c1 & El & _)]]; [| |discriminate].
+        - left. destruct (trans_ops _ _ _ c T) as [[E1 E2]|(o' & [El|[El _]] & Hpc & E1 & E2 & E3)]; [|inversion El; subst o'|discriminate].
+          + exfalso. (* neither accepted nor cancelled: the state would be unchanged in ops and cancel list *)
+            destruct Apc as [Apc|[-> Apc]].
+            * assert (X : accepted s c = true) by (apply accepted_true; auto).
+              assert (Y : op_taken s c o = true).
+              { unfold op_taken. apply mem_conn_false in Ac. rewrite Ad, Ac, Apc. reflexivity. }
+              unfold s' in E1. unfold step in E1. cbn [enabled step_enabled] in E1. rewrite Apc, Ad in E1.
+              apply mem_conn_false in Ac. rewrite Ac in E1. cbn [orb r_cs with_cs] in E1. rewrite upd_same in E1. cbn in E1.
+              apply (f_equal (@length op)) in E1. rewrite app_length in E1. cbn in E1. lia.
+            * unfold s' in E. unfold step in E. cbn [enabled step_enabled] in E.
+              destruct (c_pc (r_cs s c)) eqn:Hpc; [contradiction|]. apply mem_conn_false in Ac. rewrite Ad, Ac in E. cbn in E.
+              apply (f_equal (@length conn)) in E. cbn in E. lia.
+          + fold s' in E1, E2, E3. repeat split; auto. unfold cancel_tail. fold s' in E. rewrite E. apply mem_conn_false in Ac. now rewrite Ac.
+        - inversion El; subst c1 o. right. fold s' in E, Ecs. repeat split; auto.
+          + now rewrite Ecs.
+          + unfold cancel_tail. rewrite E. cbn. now rewrite Nat.eqb_refl.
+          + rewrite E. now left.
+          + now rewrite Ecs.
+          + now rewrite Ecs. }
+      constructor; rewrite ?istep_now, ?istep_s, ?EH; fold s; fold s'; try assumption; try lia.
       * intros h Hin. apply in_app_iff in Hin as [Hin|[<-|[]]]; [now apply Time_old|].
         cbn. split; [lia | discriminate].
       * apply SSorted_snoc_gen; [apply I|]. apply Forall_forall. intros h Hin. cbn.
         destruct (h_time st I h Hin). lia.
-      * intro x. rewrite xops_app, map_app, (h_ops st I x). unfold xops at 1. cbn [filter h_c].
+      * intro x. rewrite xops_app, map_app, (h_ops st I x). fold s. unfold xops at 1. cbn [filter h_c].
         destruct (Nat.eqb c x) eqn:Ec.
-        -- apply Nat.eqb_eq in Ec. subst x. rewrite (accepted_step _ _ o Acc). reflexivity.
+        -- apply Nat.eqb_eq in Ec. subst x. cbn [List.map h_o]. rewrite Tail0, app_nil_r.
+           destruct Ways as [(_ & E1 & E2 & _)|(-> & _ & E1 & E2 & _)]; rewrite E1, E2; [now rewrite app_nil_r | reflexivity].
         -- cbn [List.map]. rewrite app_nil_r. apply Nat.eqb_neq in Ec.
-           destruct (trans_ops _ _ _ x T) as [[E _]|(o' & El & _)]; [now rewrite E | inversion El; congruence].
-      * intros h Hin Hd Hc. apply in_app_iff in Hin as [Hin|[<-|[]]].
-        -- destruct (h_open st I h Hin Hd Hc) as [H1 H2].
-           assert (N : h_c h <> c) by (intro X; rewrite X in H1; contradiction).
-           rewrite (Pc_other _ N). split; [assumption|].
-           intros h' Hin' Ec'. apply in_app_iff in Hin' as [Hin'|[<-|[]]]; [now apply H2|]. cbn in Ec'. congruence.
-        -- cbn [h_c h_b]. rewrite Pc_c. split; [now apply program_nonnil|].
-           intros h' Hin' _. apply in_app_iff in Hin' as [Hin'|[<-|[]]]; [|cbn; lia].
-           destruct (h_time st I h' Hin'). lia.
-      * intros x Hx. destruct (Nat.eq_dec x c) as [->|N].
-        -- exists (mkHop c o (i_now st) None). split; [apply in_or_app; right; now left|]. repeat split.
-           intros h' Hin' _. apply in_app_iff in Hin' as [Hin'|[<-|[]]]; [|cbn; lia].
-           destruct (h_time st I h' Hin'). cbn. lia.
-        -- rewrite (Pc_other _ N) in Hx. destruct (h_busy st I x Hx) as (h & Hin & Ec & Hd & Hl).
+           assert (N : x <> c) by congruence. destruct (Other x (Lo x N)) as (_ & _ & E1 & _).
+           now rewrite E1, (Tail_other x (Lo x N)).
+      * (* open operations *)
+        intros h Hin Hd Hc Hk. apply in_app_iff in Hin as [Hin|[<-|[]]].
+        -- destruct (h_open st I h Hin Hd Hc Hk) as [H1 H2]. fold s in H2.
+           destruct (Nat.eq_dec (h_c h) c) as [Ec|N].
+           ++ (* an open operation of c: c was busy, so this is a cancellation *)
+              destruct Ways as [(Hpc & _)|(-> & _ & _ & _ & Hin' & _)].
+              ** exfalso. rewrite Ec in H2. destruct H2 as [X|[X|X]]; [contradiction | contradiction | congruence].
+              ** split; [|rewrite Ec; right; now left].
+                 intros h' Hin2 Ec2 Hk2. apply in_app_iff in Hin2 as [Hin2|[<-|[]]]; [now apply H1 | discriminate].
+           ++ destruct (Other _ (Lo _ N)) as (E1 & E2 & _ & E4). split.
+              ** intros h' Hin2 Ec2 Hk2. apply in_app_iff in Hin2 as [Hin2|[<-|[]]]; [now apply H1|]. cbn in Ec2. congruence.
+              ** rewrite E1, E2. destruct H2 as [X|[X|X]]; auto. right; left. now apply E4.
+        -- cbn [h_c h_b h_o] in *. destruct Ways as [(_ & _ & _ & Ep & _)|(-> & _)]; [|discriminate]. split.
+           ++ intros h' Hin2 _ _. apply in_app_iff in Hin2 as [Hin2|[<-|[]]]; [|cbn; lia].
+              destruct (h_time st I h' Hin2). lia.
+           ++ left. rewrite Ep. now apply program_nonnil.
+      * (* disconnects *)
+        intros k Hin Hk. apply in_app_iff in Hin as [Hin|[<-|[]]].
+        -- destruct (h_disc st I k Hin Hk) as (H1 & H2 & H3). fold s in H2, H3.
+           assert (N : h_c k <> c).
+           { intro Ec. rewrite Ec in H2. destruct H2 as [X|X]; [contradiction | congruence]. }
+           destruct (Other _ (Lo _ N)) as (E1 & E2 & _ & E4). split; [|split].
+           ++ intros h' Hin2 Ec2. apply in_app_iff in Hin2 as [Hin2|[<-|[]]]; [now apply H1|]. cbn in Ec2. congruence.
+           ++ destruct H2 as [X|X]; [left; now apply E4 | right; congruence].
+           ++ intro Hd. rewrite E1, E2. now apply H3.
+        -- cbn [h_c h_b h_o h_d] in *. destruct o; try discriminate. split; [|split].
+           ++ intros h' Hin2 _. apply in_app_iff in Hin2 as [Hin2|[<-|[]]]; [|cbn; lia].
+              destruct (h_time st I h' Hin2). lia.
+           ++ destruct Ways as [(_ & _ & _ & _ & Ed)|(_ & _ & _ & _ & Hin' & _)]; [right; exact Ed | now left].
+           ++ intro X. now contradiction X.
+      * (* the operation a live loop works on *)
+        intros x Hx Hdx. destruct (Nat.eq_dec x c) as [->|N].
+        -- destruct Ways as [(_ & _ & _ & Ep & Ed)|(-> & Hne & _ & _ & _ & Ep & Ed)].
+           ++ exists (mkHop c o (i_now st) None). split; [apply in_or_app; right; now left|]. cbn [h_c h_o h_d h_b].
+              split; [reflexivity|]. split; [congruence|]. split; [reflexivity|].
+              intros h' Hin2 _ _. apply in_app_iff in Hin2 as [Hin2|[<-|[]]]; [|cbn; lia]. destruct (h_time st I h' Hin2). lia.
+           ++ destruct (h_busy st I c Hne Ad) as (h & Hh & Hch & Hkh & Hdh & Lh).
+              exists h. split; [apply in_or_app; now left|]. repeat split; auto.
+              intros h' Hin2 Ec2 Hk2. apply in_app_iff in Hin2 as [Hin2|[<-|[]]]; [now apply Lh | discriminate].
+        -- destruct (Other x (Lo x N)) as (E1 & E2 & _). rewrite E1 in Hx. rewrite E2 in Hdx.
+           destruct (h_busy st I x Hx Hdx) as (h & Hh & Hch & Hkh & Hdh & Lh).
            exists h. split; [apply in_or_app; now left|]. repeat split; auto.
-           intros h' Hin' Ec'. apply in_app_iff in Hin' as [Hin'|[<-|[]]]; [now apply Hl|]. cbn in Ec'. congruence.
+           intros h' Hin2 Ec2 Hk2. apply in_app_iff in Hin2 as [Hin2|[<-|[]]]; [now apply Lh|]. cbn in Ec2. congruence.
     + (* a step of c's goroutine *)
-      assert (Hno : forall c0 o, LRun c <> LOp c0 o) by discriminate.
-      assert (Pc_other : forall x, x <> c -> c_pc (r_cs (step (i_s st) (LRun c)) x) = c_pc (r_cs (i_s st) x)).
-      { intros x N. apply (trans_pc_other _ _ _ _ T). cbn. now apply Nat.eqb_neq. }
-      destruct (is_nil (c_pc (r_cs (step (i_s st) (LRun c)) c))) eqn:En.
-      * (* its program ends *)
-        apply is_nil_true in En.
-        constructor; rewrite ?istep_now, ?istep_s, ?EH; try assumption; try lia.
-        -- intros h' Hin. apply in_map_iff in Hin as [h [<- Hin]]. rewrite close1_b.
-           destruct (Time_old h Hin) as [H1 H2]. split; [assumption|].
-           destruct (close1_d c (i_now st) h) as [Ed|(_ & Ed & _)]; rewrite Ed; [assumption|].
-           intros d Hd. inversion Hd; subst d. destruct (h_time st I h Hin). lia.
-        -- apply SSorted_map_gen; [|apply I]. intros a b. now rewrite !close1_b.
-        -- intro x. rewrite xops_close, map_map. rewrite (Ops_noop Hno x), <- (h_ops st I x).
-           apply map_ext. intro a. apply close1_o.
-        -- intros h' Hin Hd Hc. apply in_map_iff in Hin as [h [<- Hin]].
-           rewrite close1_o in Hc. rewrite close1_c.
-           assert (Hd0 : h_d h = None).
-           { destruct (close1_d c (i_now st) h) as [Ed|(Ed & Ed' & _)]; [now rewrite <- Ed | assumption]. }
-           assert (N : h_c h <> c).
-           { intro X. rewrite (close1_open c _ h X Hd0 Hc) in Hd. discriminate. }
-           destruct (h_open st I h Hin Hd0 Hc) as [H1 H2]. rewrite (Pc_other _ N). split; [assumption|].
-           intros h2' Hin2 Ec2. apply in_map_iff in Hin2 as [h2 [<- Hin2]].
-           rewrite close1_c in Ec2. rewrite !close1_b. now apply H2.
-        -- intros x Hx. assert (N : x <> c) by (intro; subst; contradiction).
-           rewrite (Pc_other _ N) in Hx. destruct (h_busy st I x Hx) as (h & Hin & Ec & Hd & Hl).
-           exists h. split; [|repeat split; auto].
-           ++ apply in_map_iff. exists h. split; [apply close1_other; congruence | assumption].
-           ++ intros h2' Hin2 Ec2. apply in_map_iff in Hin2 as [h2 [<- Hin2]].
-              rewrite close1_c in Ec2. rewrite close1_b. now apply Hl.
-      * apply is_nil_false in En. apply Same; [assumption | | now apply Ops_noop].
-        apply (trans_idle_iff _ _ _ T Hno). intros c0 E0. now inversion E0; subst.
-    + apply Same; [assumption | | apply Ops_noop; discriminate].
-      apply (trans_idle_iff _ _ _ T); discriminate.
-    + apply Same; [assumption | | apply Ops_noop; discriminate].
-      apply (trans_idle_iff _ _ _ T); discriminate.
-    + apply Same; [assumption | | apply Ops_noop; discriminate].
-      apply (trans_idle_iff _ _ _ T); discriminate.
+      assert (Lo : forall x, x <> c -> label_of_conn x (LRun c) = false) by (intros x N; cbn; now apply Nat.eqb_neq).
+      destruct (c_pc (r_cs s c)) as [|i0 rest0] eqn:Hpc.
+      * (* the cancelled session's loop returns *)
+        cbn [is_nil negb andb] in EH.
+        destruct A as [A|A]; [contradiction|].
+        destruct (trans_ops _ _ _ c T) as [[E1 E2]|(o & [El|(_ & -> & _)] & _ & E1 & E2 & E3)]; [|discriminate|].
+        { exfalso. destruct (trans_cancel _ _ _ T) as [E|[(c1 & El & _)|(c1 & El & _ & _ & E)]]; [|discriminate|].
+          - unfold s' in E1. unfold step in E1. cbn [enabled step_enabled] in E1. unfold run_instr in E1. fold s in E1. rewrite Hpc in E1.
+            apply mem_conn_In in A. rewrite A in E1. cbn [r_cs] in E1. rewrite upd_same in E1. cbn in E1.
+            apply (f_equal (@length op)) in E1. rewrite app_length in E1. cbn in E1. lia.
+          - unfold s' in E1. unfold step in E1. cbn [enabled step_enabled] in E1. unfold run_instr in E1. fold s in E1. rewrite Hpc in E1.
+            apply mem_conn_In in A. rewrite A in E1. cbn [r_cs] in E1. rewrite upd_same in E1. cbn in E1.
+            apply (f_equal (@length op)) in E1. rewrite app_length in E1. cbn in E1. lia. }
+        fold s' in E1, E2, E3. cbn in E2, E3.
+        assert (Ecan : r_cancel s' = remove_conn c (r_cancel s)).
+        { destruct (trans_cancel _ _ _ T) as [E|[(c1 & El & _)|(c1 & El & _ & _ & E)]]; [|discriminate|inversion El; subst; exact E].
+          exfalso. unfold s' in E. unfold step in E. cbn [enabled step_enabled] in E. unfold run_instr in E. fold s in E. rewrite Hpc in E.
+          pose proof A as A'. apply mem_conn_In in A'. rewrite A' in E. cbn in E.
+          assert (X : In c (remove_conn c (r_cancel s))) by (rewrite E; exact A). apply remove_conn_In in X. tauto. }
+        apply HInv_same; fold s s'; auto.
+        -- intro x. destruct (Nat.eq_dec x c) as [->|N].
+           ++ rewrite E1. unfold cancel_tail. rewrite Ecan, mem_conn_remove_same. apply mem_conn_In in A. rewrite A. now rewrite <- app_assoc.
+           ++ destruct (Other x (Lo x N)) as (_ & _ & E & _). now rewrite E, (Tail_other x (Lo x N)).
+        -- intros x [X|[X|X]]; destruct (Nat.eq_dec x c) as [->|N]; try (right; right; exact E2).
+           ++ destruct (Other x (Lo x N)) as (E & _). left. now rewrite E.
+           ++ right; left. now apply (Other x (Lo x N)).
+           ++ right; right. destruct (Other x (Lo x N)) as (_ & E & _). now rewrite E.
+        -- intros x [X|X]; destruct (Nat.eq_dec x c) as [->|N]; try (right; exact E2).
+           ++ left. now apply (Other x (Lo x N)).
+           ++ right. destruct (Other x (Lo x N)) as (_ & E & _). now rewrite E.
+        -- intros x [X1 X2]. destruct (Nat.eq_dec x c) as [->|N].
+           ++ exfalso. rewrite (inv_cancel _ IV c A) in X2. discriminate.
+           ++ destruct (Other x (Lo x N)) as (Ea & Eb & _). unfold gone. now rewrite Ea, Eb.
+        -- intros x Hx Hdx. destruct (Nat.eq_dec x c) as [->|N]; [congruence|].
+           destruct (Other x (Lo x N)) as (Ea & Eb & _). now rewrite <- Ea, <- Eb.
+      * (* an instruction *)
+        cbn [is_nil negb andb] in EH.
+        assert (Eops : forall x, c_ops (r_cs s' x) = c_ops (r_cs s x) /\ c_dead (r_cs s' x) = c_dead (r_cs s x)).
+        { intro x. destruct (trans_ops _ _ _ x T) as [E|(o & [El|(_ & _ & _)] & Hp & _)]; [assumption|discriminate|].
+          destruct (Nat.eq_dec x c) as [->|N]; [fold s in Hp; congruence|]. destruct (Other x (Lo x N)) as (_ & Ea & Eb & _). auto. }
+        assert (Ecan : r_cancel s' = r_cancel s).
+        { destruct (trans_cancel _ _ _ T) as [E|[(c1 & El & _)|(c1 & El & Hp & _)]]; [assumption|discriminate|].
+          inversion El; subst c1. fold s in Hp. congruence. }
+        assert (Etail : forall x, c_ops (r_cs s' x) ++ cancel_tail s' x = c_ops (r_cs s x) ++ cancel_tail s x).
+        { intro x. destruct (Eops x) as [-> _]. unfold cancel_tail. now rewrite Ecan. }
+        destruct (is_nil (c_pc (r_cs s' c))) eqn:En.
+        -- (* the program ends *)
+           apply is_nil_true in En.
+           set (d := is_unsub_head (i0 :: rest0)) in *.
+           assert (Hd_true : d = true -> c_dead (r_cs s c) = true).
+           { intro X. unfold d in X. destruct i0; try discriminate. pose proof (inv_pc _ IV c) as P. fold s in P. rewrite Hpc in P.
+             now destruct (pc_ok_inv_unsuball _ _ _ P). }
+           constructor; rewrite ?istep_now, ?istep_s, ?EH; fold s; fold s'; try assumption; try lia.
+           ++ intros h' Hin. apply in_map_iff in Hin as [h [<- Hin]]. rewrite close1_b.
+              destruct (Time_old h Hin) as [H1 H2]. split; [assumption|].
+              destruct (close1_d d c (i_now st) h) as [Ed|(_ & Ed & _)]; rewrite Ed; [assumption|].
+              intros d0 Hd0. inversion Hd0; subst d0. destruct (h_time st I h Hin). lia.
+           ++ apply SSorted_map_gen; [|apply I]. intros a b. now rewrite !close1_b.
+           ++ intro x. pose proof (h_ops st I x) as Ho. fold s in Ho. rewrite xops_close, map_map, Etail, <- Ho.
+              apply map_ext. intro a. apply close1_o.
+           ++ (* open operations *)
+              intros h' Hin Hd Hc Hk. apply in_map_iff in Hin as [h [<- Hin]].
+              rewrite close1_o in Hc, Hk. rewrite close1_c.
+              assert (Hd0 : h_d h = None).
+              { destruct (close1_d d c (i_now st) h) as [Ed|(Ed & Ed' & _)]; [now rewrite <- Ed | assumption]. }
+              destruct (h_open st I h Hin Hd0 Hc Hk) as [H1 H2]. fold s in H2. split.
+              ** intros h2' Hin2 Ec2 Hk2. apply in_map_iff in Hin2 as [h2 [<- Hin2]].
+                 rewrite close1_c in Ec2. rewrite close1_o in Hk2. rewrite !close1_b. now apply H1.
+              ** destruct (Nat.eq_dec (h_c h) c) as [Ec|N].
+                 --- (* an operation of c stays open: only if its disconnect ended, or it was cancelled *)
+                     destruct d eqn:Ed.
+                     +++ right; right. rewrite Ec. destruct (Eops c) as [_ ->]. now apply Hd_true.
+                     +++ exfalso. rewrite (close1_open false c _ h Ec Hd0 Hc Hk) in Hd. discriminate.
+                 --- destruct (Other _ (Lo _ N)) as (E1 & E2 & _ & E4). rewrite E1, E2.
+                     destruct H2 as [X|[X|X]]; auto. right; left. now apply E4.
+           ++ (* disconnects *)
+              intros k' Hin Hk. apply in_map_iff in Hin as [k [<- Hin]].
+              rewrite close1_o in Hk. rewrite close1_c.
+              destruct (h_disc st I k Hin Hk) as (H1 & H2 & H3). fold s in H2, H3. split; [|split].
+              ** intros h2' Hin2 Ec2. apply in_map_iff in Hin2 as [h2 [<- Hin2]].
+                 rewrite close1_c in Ec2. rewrite !close1_b. now apply H1.
+              ** rewrite Ecan. destruct (Eops (h_c k)) as [_ ->]. exact H2.
+              ** intro Hd. destruct (Eops (h_c k)) as [_ ->].
+                 destruct (close1_d d c (i_now st) k) as [Ed|(Ed1 & Ed2 & Ec & _ & Ek)].
+                 --- rewrite Ed in Hd. destruct (H3 Hd) as [X1 X2]. split; [|assumption].
+                     destruct (Nat.eq_dec (h_c k) c) as [Ec|N]; [rewrite Ec; exact En|].
+                     now rewrite (proj1 (Other _ (Lo _ N))).
+                 --- rewrite Ec. split; [exact En|]. apply Hd_true. congruence.
+           ++ intros x Hx Hdx. assert (N : x <> c) by (intro; subst; contradiction).
+              destruct (Other x (Lo x N)) as (E1 & E2 & _). rewrite E1 in Hx. rewrite E2 in Hdx.
+              destruct (h_busy st I x Hx Hdx) as (h & Hh & Hch & Hkh & Hdh & Lh).
+              exists h. split; [apply in_map_iff; exists h; split; [apply close1_other; congruence | assumption]|].
+              repeat split; auto. intros h2' Hin2 Ec2 Hk2. apply in_map_iff in Hin2 as [h2 [<- Hin2]].
+              rewrite close1_c in Ec2. rewrite close1_o in Hk2. rewrite close1_b. now apply Lh.
+        -- (* the program goes on *)
+           apply is_nil_false in En.
+           apply HInv_same; fold s s'; auto.
+           ++ intros x [X|[X|X]]; destruct (Nat.eq_dec x c) as [->|N]; try (left; exact En).
+              ** left. now rewrite (proj1 (Other x (Lo x N))).
+              ** right; left. now rewrite Ecan.
+              ** right; right. now rewrite (proj2 (Eops x)).
+           ++ intros x [X|X]; [left; now rewrite Ecan | right; now rewrite (proj2 (Eops x))].
+           ++ intros x [X1 X2]. destruct (Nat.eq_dec x c) as [->|N]; [congruence|].
+              unfold gone. now rewrite (proj1 (Other x (Lo x N))), (proj2 (Eops x)).
+           ++ intros x Hx Hdx. rewrite (proj2 (Eops x)) in Hdx. split; [|assumption].
+              destruct (Nat.eq_dec x c) as [->|N]; [congruence|]. now rewrite <- (proj1 (Other x (Lo x N))).
+    + (* a visit starts *)
+      assert (Lo : forall x, x <> c -> label_of_conn x (LVisit c c' ord) = false) by (intros x N; cbn; now apply Nat.eqb_neq).
+      pose proof (trans_visit_pc _ _ _ _ _ T) as Hne. fold s' in Hne.
+      assert (Eops : forall x, c_ops (r_cs s' x) = c_ops (r_cs s x) /\ c_dead (r_cs s' x) = c_dead (r_cs s x)).
+      { intro x. destruct (trans_ops _ _ _ x T) as [E|(o & [El|(El & _)] & _)]; [assumption|discriminate|discriminate]. }
+      assert (Ecan : r_cancel s' = r_cancel s).
+      { destruct (trans_cancel _ _ _ T) as [E|[(c1 & El & _)|(c1 & El & _)]]; [assumption|discriminate|discriminate]. }
+      apply HInv_same; fold s s'; auto.
+      * intro x. destruct (Eops x) as [-> _]. unfold cancel_tail. now rewrite Ecan.
+      * intros x [X|[X|X]]; destruct (Nat.eq_dec x c) as [->|N]; try (left; exact Hne).
+        -- left. now rewrite (proj1 (Other x (Lo x N))).
+        -- right; left. now rewrite Ecan.
+        -- right; right. now rewrite (proj2 (Eops x)).
+      * intros x [X|X]; [left; now rewrite Ecan | right; now rewrite (proj2 (Eops x))].
+      * intros x [X1 X2]. destruct (Nat.eq_dec x c) as [->|N]; [fold s in A; congruence|].
+        unfold gone. now rewrite (proj1 (Other x (Lo x N))), (proj2 (Eops x)).
+      * intros x Hx Hdx. rewrite (proj2 (Eops x)) in Hdx. split; [|assumption].
+        destruct (Nat.eq_dec x c) as [->|N]; [exact A|]. now rewrite <- (proj1 (Other x (Lo x N))).
+    + (* take *)
+      apply HInv_same; fold s s'; auto.
+      * intro x. destruct (Other x eq_refl) as (_ & _ & E & _). now rewrite E, (Tail_other x eq_refl).
+      * intros x [X|[X|X]]; destruct (Other x eq_refl) as (E1 & E2 & _ & E4); [left; now rewrite E1 | right; left; now apply E4 | right; right; now rewrite E2].
+      * intros x [X|X]; destruct (Other x eq_refl) as (E1 & E2 & _ & E4); [left; now apply E4 | right; now rewrite E2].
+      * intros x [X1 X2]. destruct (Other x eq_refl) as (E1 & E2 & _). unfold gone. now rewrite E1, E2.
+      * intros x Hx Hdx. destruct (Other x eq_refl) as (E1 & E2 & _). now rewrite <- E1, <- E2.
+    + (* deliver *)
+      apply HInv_same; fold s s'; auto.
+      * intro x. destruct (Other x eq_refl) as (_ & _ & E & _). now rewrite E, (Tail_other x eq_refl).
+      * intros x [X|[X|X]]; destruct (Other x eq_refl) as (E1 & E2 & _ & E4); [left; now rewrite E1 | right; left; now apply E4 | right; right; now rewrite E2].
+      * intros x [X|X]; destruct (Other x eq_refl) as (E1 & E2 & _ & E4); [left; now apply E4 | right; now rewrite E2].
+      * intros x [X1 X2]. destruct (Other x eq_refl) as (E1 & E2 & _). unfold gone. now rewrite E1, E2.
+      * intros x Hx Hdx. destruct (Other x eq_refl) as (E1 & E2 & _). now rewrite <- E1, <- E2.
+    + (* a reply is given up *)
+      assert (Lo : forall x, x <> c -> label_of_conn x (LSkip c) = false) by (intros x N; cbn; now apply Nat.eqb_neq).
+      destruct A as [Apc Ac].
+      assert (Eops : forall x, c_ops (r_cs s' x) = c_ops (r_cs s x) /\ c_dead (r_cs s' x) = c_dead (r_cs s x)).
+      { intro x. destruct (trans_ops _ _ _ x T) as [E|(o & [El|(El & _)] & _)]; [assumption|discriminate|discriminate]. }
+      assert (Ecan : r_cancel s' = r_cancel s).
+      { destruct (trans_cancel _ _ _ T) as [E|[(c1 & El & _)|(c1 & El & _)]]; [assumption|discriminate|discriminate]. }
+      apply HInv_same; fold s s'; auto.
+      * intro x. destruct (Eops x) as [-> _]. unfold cancel_tail. now rewrite Ecan.
+      * intros x [X|[X|X]]; destruct (Nat.eq_dec x c) as [->|N]; try (right; left; now rewrite Ecan).
+        -- left. now rewrite (proj1 (Other x (Lo x N))).
+        -- right; right. now rewrite (proj2 (Eops x)).
+      * intros x [X|X]; [left; now rewrite Ecan | right; now rewrite (proj2 (Eops x))].
+      * intros x [X1 X2]. destruct (Nat.eq_dec x c) as [->|N]; [fold s in Apc; congruence|].
+        unfold gone. now rewrite (proj1 (Other x (Lo x N))), (proj2 (Eops x)).
+      * intros x Hx Hdx. rewrite (proj2 (Eops x)) in Hdx. split; [|assumption].
+        destruct (Nat.eq_dec x c) as [->|N]; [exact Apc|]. now rewrite <- (proj1 (Other x (Lo x N))).
 Qed.
 
-Theorem HInv_irun st tr : HInv st -> HInv (irun st tr).
+Theorem HInv_irun buf st tr : reachable buf (i_s st) -> HInv st -> HInv (irun st tr).
 Proof.
-  revert st. induction tr as [|l tr IH]; intros st I; [assumption|]. rewrite irun_cons. apply IH. now apply HInv_step.
+  revert st. induction tr as [|l tr IH]; intros st R I; [assumption|]. rewrite irun_cons.
+  apply IH; [rewrite istep_s; now constructor | now apply (HInv_step buf)].
 Qed.
